@@ -105,7 +105,7 @@ ADDENDA = {
  "C16": "A quarter of the server schemas go through the real CLI with a scalar configuration (so that generate runs); schemas apply @nitrogql_ts_type on custom and built-in scalars, and (CLI route, model plugin configured) @model on objects and fields at any position among other, order-sensitive directive applications. Multi-line string values are split into those for which printing between triple quotes is exact (must survive) and the rest (listed finding). Every third CLI project is generated twice in one directory (an earlier, longer revision of the schema first).",
  "C17": "Part D: the check verdict of valid documents, single-fault documents and single-fault schemas under reversed and shuffled schema definitions, in-process (about 48000 permutations in the quick tier). History variant: a working copy that still holds the outputs of an earlier revision of the sources (same declarations, other positions) must end up with the bytes of a clean run. Part A2: several diagnostics anchored at one position (a field missing all of its required arguments, selected twice), K+3 runs per output format. The history variant's earlier revision has one more type, so every earlier output was longer.",
  "C18": "Copy-paste twins (the same faulty file under a second name: identical message, line and column in two files), projects whose schema is an introspection result, a layout with a documents glob through `..`, and three invocation styles (project directory, parent directory with --config-file, sub-directory with --config-file ../).",
- "C19": "The source pool has files in other directories with their own relative imports and a root in a nested directory; the alphabet includes the id the loader would hand out next (never given to the caller). Further: read-the-last-result before and after every free_task, root names that are not in normal form, a scripted two-directories project (identical import strings for different targets) in all 24 load orders.",
+ "C19": "The source pool has files in other directories with their own relative imports and a root in a nested directory; the alphabet includes the id the loader would hand out next (never given to the caller). Further: read-the-last-result before and after every free_task, root names that are not in normal form, a scripted two-directories project (identical import strings for different targets) in all 24 load orders. In the thorough tier histories of length 5 range over a 12-symbol core alphabet; lengths up to 4 over the full alphabet.",
  "C20": "End-to-end projects use dotted output names (schema.generated.d.ts, api.v2.d.mts, gen.d/schema.cts), a fragment file outside the project directory and three CLI invocation styles; 1600 CLI projects in the quick tier.",
  "C06": "End-to-end part: 1600 CLI projects in the quick tier, dotted output names, a fragment file outside the project directory, three CLI invocation styles.",
  "C12": "Fragments may carry the name of an operation. The file splitter has a minimal import mode (a file imports only what its own definitions spread: diamonds over the imported files' own imports); the loader-ABI route does not wait for the CLI-side check verdict.",
